@@ -143,6 +143,48 @@ def convert_fact(f):
     raise ToolError("unknown raw op %s" % op)
 
 
+def convert_ntt_big(o):
+    """raw ntt_big event -> list of (fact, description)"""
+    n, q, root = o["n"], int(o["q"]), int(o["root"])
+    pw = [1]
+    hints = []
+    for k in range(2 * n - 1):
+        hints.append(limbs(pw[-1] * root // q))
+        pw.append(pw[-1] * root % q)
+    lpw = [limbs(x) for x in pw]
+    out = [({"op": "ntt_root", "x": [limbs(q), limbs(root)], "n": [n], "pw": lpw, "hints": hints, "roots": [limbs(int(r)) for r in o["roots"]]},
+            {"op": "ntt_root", "n": n, "q": q, "root": root, "roots": o["roots"]})]
+
+    def brev(x, bits):
+        r = 0
+        for _ in range(bits):
+            r = (r << 1) | (x & 1)
+            x >>= 1
+        return r
+    logn = n.bit_length() - 1
+    for u in o["units"]:
+        desc = {"op": "ntt_" + u["kind"], "n": n, "q": q, "j": u["j"], "c": u["c"]}
+        if u.get("panic"):
+            out.append((flag(False, "transform panicked"), desc))
+            continue
+        c, j = int(u["c"]), u["j"]
+        vals = [int(v) for v in u["out"]]
+        if u["kind"] in ("fwd", "lazy"):
+            bound = 1 if u["kind"] == "fwd" else 4
+            hs = []
+            for i in range(n):
+                e = ((2 * brev(i, logn) + 1) * j) % (2 * n)
+                prod = c * pw[e]
+                hs.append(limbs((prod - vals[i]) // q if prod >= vals[i] else 0))
+            out.append(({"op": "ntt_unit", "x": [limbs(q), limbs(c)], "n": [n, j, bound], "pw": lpw, "out": [limbs(v) for v in vals], "hints": hs}, desc))
+        else:
+            bound = 1 if u["kind"] == "inv" else 2
+            cc = c % q
+            hs = [limbs(abs(vals[i] - cc) // q) if i == j else [] for i in range(n)]
+            out.append(({"op": "ntt_inv_unit", "x": [limbs(q), limbs(cc)], "n": [n, j, bound], "out": [limbs(v) for v in vals], "hints": hs}, desc))
+    return out
+
+
 def describe(f):
     d = {k: v for k, v in f.items() if k in ("op", "x", "n", "e", "a", "b", "variant", "ok", "r", "m")}
     return d
@@ -155,6 +197,21 @@ def convert_lines(raw_lines):
     for rl in raw_lines:
         o = json.loads(rl)
         ln = len(out) + 1
+        if o.get("op") == "ntt_big":
+            pairs = convert_ntt_big(o)
+            for k in range(0, len(pairs), 8):
+                ln = len(out) + 1
+                chunk = pairs[k:k + 8]
+                out.append(json.dumps({"ev": "big", "facts": [f for f, _ in chunk]}))
+                for i, (_, d) in enumerate(chunk):
+                    index[(ln, i + 1)] = d
+            continue
+        if o["ev"] == "big" and o["facts"] and o["facts"][0].get("op") == "ntt_small":
+            ln = len(out) + 1
+            out.append(json.dumps(o))
+            e = o["facts"][0]
+            index[(ln, 1)] = {"op": "ntt_small", "n": e["n"], "q": e["q"], "root": e["root"]}
+            continue
         if o["ev"] == "small":
             out.append(json.dumps(o))
             for i, row in enumerate(o["rows"]):
